@@ -36,8 +36,8 @@ impl Scenario for C08 {
     }
     fn runs(&self, tier: Tier) -> u64 {
         match tier {
-            Tier::Quick => 40_000,
-            Tier::Thorough => 2_000_000,
+            Tier::Quick => 400_000,
+            Tier::Thorough => 30_000_000,
         }
     }
     fn describe(&self) -> &'static str {
@@ -70,12 +70,18 @@ impl Scenario for C08 {
                 controller_segment(cx, &world, &MSG_FAULTS);
             }
         }
-        if world.lock().dead || cx.is_discarded() {
+        if world.lock().dead || cx.is_discarded() || world.lock().capped {
             return Ok(());
         }
 
         // ---- phase B: faults have stopped ---------------------------------------------------
-        world.lock().on_panic = OnPanic::Fail;
+        {
+            let mut w = world.lock();
+            w.on_panic = OnPanic::Fail;
+            // from here on every call must end, and end well
+            w.cap_is_violation = true;
+            w.delivery_cap = w.delivered + 20_000;
+        }
         let t = gens::sign_type(cx);
         let (prior_state, prior_type, prior_pages, prior_dims) = {
             let w = world.lock();
